@@ -114,9 +114,11 @@ chk('C11', 'translation_validation',
     'internals.math.cov2corr / corr2cov and modeling.calculate_{se,corr,cov,prec}_from_* run on numpy object arrays / '
     'pandas object frames of z3 Real terms (lib/symnum.py: every branch on an entry is decided or forked by the solver); '
     'on every path z3 decides the defining relation (corr_ij*sd_i*sd_j = cov_ij, P.C = I, se_i^2 = C_ii, labels kept) and '
-    'the round trips cov -> (corr, se) -> cov for ALL matrices of size n <= 3 (thorough: inverse-free ones n = 4).',
-    'NOT claimed: nearest PSD repair, parameters_sdcorr, UCP scaling (np.linalg eig/svd/cholesky and symengine '
-    'substitution, out of solver reach); float rounding. Trusted: the harness table; sympy->z3 translation; numpy object-'
+    'the round trips cov -> (corr, se) -> cov for ALL matrices of size n <= 3 (thorough: inverse-free ones n = 4); UCP '
+    'matrix kernel: estimation._descale_matrix(u0, _scale_matrix(A)) = A for all A = L.L^T, n <= 3, every sign pattern '
+    'of the off-diagonal Cholesky entries (initial UCPs 0.1 / +-0.1 by NONMEM convention; cholesky = contract stub).',
+    'NOT claimed: nearest PSD repair, parameters_sdcorr, the theta part of UCP scaling (np.linalg eig/svd, math.log and '
+    'symengine substitution, out of solver reach); float rounding. Trusted: the harness table; sympy->z3 translation; numpy object-'
     'array semantics; np.linalg.inv replaced by its contract (A.X = X.A = I).',
     'z3 entrywise equality of covariance structures after real RandomVariables operations; symbolic execution of the '
     'real conversion kernels over numpy object arrays of z3 terms',
